@@ -14,6 +14,7 @@ Definition ex2_prog : prog2 :=
   mkQ (fun k => if k =? 1 then [0] else if k =? 2 then [1] else [])
       (fun k => if k =? 2 then [1] else if k =? 3 then [1; 2] else [])
       (fun _ ins vals => nsum ins + nsum vals)
+      (fun k => negb (k =? 3))       (* key 3 is a `no_eq` function *)
       (fun r i => if i =? 0 then 5 else if r <? 2 then 7 else 9)
       (fun r i => if i =? 0 then 1 else if r <? 2 then 1 else 2).
 
@@ -28,8 +29,10 @@ Qed.
 
 Lemma ex2_stamps : stamps_ok ex2_prog.
 Proof.
-  intros r i r'. cbn. destruct (i =? 0); [reflexivity|].
-  destruct (N.ltb_spec r 2); intros H1 H2; destruct (N.ltb_spec r' 2); try reflexivity; lia.
+  split.
+  - intros r i r'. cbn. destruct (i =? 0); [reflexivity|].
+    destruct (N.ltb_spec r 2); intros H1 H2; destruct (N.ltb_spec r' 2); try reflexivity; lia.
+  - intros r i Hr. cbn. destruct (i =? 0); [lia|]. destruct (N.ltb_spec r 2); lia.
 Qed.
 
 (* round-robin driver: every round each listed handle takes one step if it can; returns the
